@@ -146,7 +146,9 @@ def _loop_membership(F, fn, cfg, du, l):
             continue
         if not any(cfg.edge_dominates(e, bid) for e in eq_edges):
             return None
-        if any(bid in lp.body or any(e[0] in lp.body for e in eq_edges if cfg.edge_dominates(e, bid)) for lp in lps):
+        # the equality itself is evaluated per element, i.e. inside a loop (an equality that merely dominates a loop - `if method ==
+        # OPTIONS { for .. }` - is not a membership test)
+        if any(any(e[0] in lp.body for e in eq_edges if cfg.edge_dominates(e, bid)) for lp in lps):
             in_loop = True
     if not in_loop:
         return None
@@ -179,11 +181,11 @@ def run(ctx):
         aggs = header_aggregates(fn)
         if any(const_str(nv) == ACAO for _, _, nv, _ in aggs):
             cors_fns.append(fn)
-    r0 = chk.rule("anchors", "functions that construct an Access-Control-Allow-Origin header", floor=3)
+    r0 = chk.rule("anchors", "functions that construct an Access-Control-Allow-Origin header", floor=2)
     for fn in cors_fns:
         r0.instance({"fn": fn.def_})
     restricted, allow_all = [], []
-    r1 = chk.rule("R1-membership-is-equality", "in restricted mode the boolean that gates the grant is an element-wise equality test between the request origin and the configured origins (no substring / prefix / case-insensitive operation)", floor=2)
+    r1 = chk.rule("R1-membership-is-equality", "in restricted mode the boolean that gates the grant is an element-wise equality test between the request origin and the configured origins (no substring / prefix / case-insensitive operation)", floor=1)
     r2 = chk.rule("R2-grants-after-checks", "every Access-Control-* header is built in a block dominated by 'Origin header present' and, in restricted mode, by the membership test's true edge", floor=3)
     r3 = chk.rule("R3-header-setting-pairing", "each restricted-mode grant takes its value from its own setting (environment variable constant or Cors field); allow-all echoes the request's origin with credentials 'true'", floor=3)
     for fn in cors_fns:
@@ -311,7 +313,7 @@ def run(ctx):
                     if not ok:
                         r3.violate("C11|R3|%s|%s" % (fn.def_, hn), "%s: %s takes its value from %s, not from %s / Cors.%s" % (fn.def_, hn, e or f, env_c, fld), s["span"]["file"], s["span"]["line"], fn.def_)
                 elif hn == "Access-Control-Allow-Credentials":
-                    ok = const_str(vv) == "true"
+                    ok = const_str(vv) == "true" or (vv[0] == "call" and (vv[1] or "").endswith("::to_string") and vv[2] and vv[2][0][0] == "const" and vv[2][0][1] is True)
                     r3.instance({"fn": fn.def_, "header": hn, "value": const_str(vv)}, ok)
                     if not ok:
                         r3.violate("C11|R3|%s|%s" % (fn.def_, hn), "%s: allow-all mode must send credentials 'true'" % fn.def_, s["span"]["file"], s["span"]["line"], fn.def_)
